@@ -1,9 +1,10 @@
 /-
-  C18 — tie to the source (T), part 3: `convert_date_crate` and `excel_to_date_time_object` of
+  C18 — tie to the source (T), part 3: `convert_date_crate`, `excel_to_date_time_object_checked` and `excel_to_date_time_object` of
   src/helper/date.rs, compiled to Lean from the CURRENT source on every run (tools/extract_fns.py →
   Umya/Model/Gen/Fns.lean), equal the hand model the C18 theorems are about, for all arguments.
 -/
 import Umya.Lemmas.FnsGenDate
+import Umya.Lemmas.DateFmt
 namespace Umya.Thm.C18
 open Umya.Date
 
@@ -12,21 +13,36 @@ open Umya.Date
     `month > 2` adjustment, `year.to_string()[0..2]` / `[2..4]` parsed as century / decade, the checked `i32` sum
     and the seconds — returns, for every float interface `F`, exactly `serialOf F date secs` of the model's
     `convertDateCrate` (and panics exactly when the model says `none`).
-    (2) `excel_to_date_time_object` as it is in the source — the three base dates with the thresholds 1 and 60,
-    the floor / subtract / ×24 / floor / ×60 / floor / ×60 / round chain and the `Duration` sum — is the model's
-    `excelToEpochSeconds` over the same interface (chrono's calendar = the reference calendar, as in the model). -/
+    (2) `excel_to_date_time_object` as it is in the source after fix d30eec7 —
+    `excel_to_date_time_object_checked(..).expect(..)`, the checked function being compiled from the source too: the
+    three base dates with the thresholds 1 and 60, the floor / subtract / ×24 / floor / ×60 / floor / ×60 / round
+    chain, the saturating `as i64`, `Duration::try_days/hours/minutes/seconds` and `checked_add_signed` with `?` —
+    is the model's `excelToEpochSecondsChecked` over the same interface, `none` = the Rust panics (chrono's
+    calendar = the reference calendar and chrono's `TimeDelta` / `NaiveDateTime` bounds as in the model);
+    (3) seen as a date-time it is the model's `excelToDateTimeObject`;
+    (4) whenever it returns, the value is the unguarded sum `excelToEpochSeconds` the C18 theorems are about. -/
 theorem C18_date_fns_match_source :
     (∀ (F : Type) [FloatOps F] (y m d h mi s : Int) (w : Bool),
       Umya.Gen.convert_date_crate F y m d h mi s w =
         (convertDateCrate y m d h mi s w).map (fun p => serialOf F p.1 p.2)) ∧
     (∀ (F : Type) [FloatOps F] (ts : F) (tz : Option (List Char)),
-      Umya.Gen.excel_to_date_time_object F Umya.Gen.refChrono ts tz = excelToEpochSeconds ts) :=
+      Umya.Gen.excel_to_date_time_object F Umya.Gen.refChrono ts tz = excelToEpochSecondsChecked ts) ∧
+    (∀ (F : Type) [FloatOps F] (ts : F) (tz : Option (List Char)),
+      (Umya.Gen.excel_to_date_time_object F Umya.Gen.refChrono ts tz).map ofEpochSeconds = excelToDateTimeObject ts) ∧
+    (∀ (F : Type) [FloatOps F] (ts : F) (tz : Option (List Char)) (t : Int),
+      Umya.Gen.excel_to_date_time_object F Umya.Gen.refChrono ts tz = some t → t = excelToEpochSeconds ts) :=
   ⟨fun F _ y m d h mi s w => Umya.Gen.gen_convert_date_crate F y m d h mi s w,
-   fun F _ ts tz => Umya.Gen.gen_excel_to_date_time_object F ts tz⟩
+   fun F _ ts tz => Umya.Gen.gen_excel_to_date_time_object F ts tz,
+   fun F _ ts tz => by rw [Umya.Gen.gen_excel_to_date_time_object]; rfl,
+   fun F _ ts tz t h => (Umya.Lemmas.DateFmt.checked_agrees ts t (by rw [← Umya.Gen.gen_excel_to_date_time_object F ts tz]; exact h)).1⟩
 
 /-- instance: the exact fixed-point interface of `C18_time_exact`, a concrete date -/
 example : Umya.Gen.convert_date_crate Fix 2021 6 2 5 4 2 true =
     (convertDateCrate 2021 6 2 5 4 2 true).map (fun p => serialOf Fix p.1 p.2) :=
   C18_date_fns_match_source.1 Fix 2021 6 2 5 4 2 true
+
+/-- instances: a serial inside chrono's range and one beyond it (the Rust panics) -/
+example : Umya.Gen.excel_to_date_time_object Fix Umya.Gen.refChrono ⟨86400 * 45435 + 3600⟩ none = some 1716426000 := by decide
+example : Umya.Gen.excel_to_date_time_object Fix Umya.Gen.refChrono ⟨86400 * 100000000⟩ none = none := by decide
 
 end Umya.Thm.C18
